@@ -155,6 +155,9 @@ func TestC14(t *testing.T) {
 				c.Prototypes.Authorizers = append(c.Prototypes.Authorizers, config.Mechanism{ID: "realallow", Type: "allow"},
 					config.Mechanism{ID: "realcel", Type: "cel", Config: config.MechanismConfig{"expressions": []any{map[string]any{"expression": "true == true"}}}})
 				c.Prototypes.ErrorHandlers = append(c.Prototypes.ErrorHandlers, config.Mechanism{ID: "realdef", Type: "default"})
+				// ids are unique per kind only: "shared" is an authorizer and a finalizer, but not a contextualizer
+				c.Prototypes.Authorizers = append(c.Prototypes.Authorizers, config.Mechanism{ID: "shared", Type: "allow"})
+				c.Prototypes.Finalizers = append(c.Prototypes.Finalizers, config.Mechanism{ID: "shared", Type: "noop"})
 				if dv.present {
 					ex, oe := stageSteps("d", dv.mask, false)
 					c.Default = &config.DefaultRule{Execute: ex, ErrorHandler: oe, BacktrackingEnabled: dv.bt}
@@ -354,6 +357,55 @@ func TestC14(t *testing.T) {
 				r.Count("expected_rejections", 1)
 				if err == nil {
 					r.Violation("malformed-rule-accepted", b.name+" was accepted", c14Case{mode, defDesc, &rl, "load result", "rejected: " + b.name, "accepted"})
+				}
+			}
+			// ---- one id, several kinds: what a step refers to depends on its kind, not on what was loaded before ----
+			kindsOrder := [][2]string{{"authorizer", "authz"}, {"finalizer", "fin"}}
+			if n%2 == 1 {
+				kindsOrder[0], kindsOrder[1] = kindsOrder[1], kindsOrder[0]
+			}
+			for _, ref := range []string{"shared", "probe:same"} {
+				for _, ks := range kindsOrder {
+					n++
+					id := fmt.Sprintf("k%d", n)
+					rl := rconfig.Rule{ID: id, Matcher: rconfig.Matcher{Routes: []rconfig.Route{{Path: "/" + id}}}, Backend: &rconfig.Backend{Host: "127.0.0.1:1"},
+						Execute: []config.MechanismConfig{{"authenticator": "probe:" + id + "a"}, {ks[0]: ref}}}
+					err := load(rl)
+					r.Case(fmt.Sprintf("%s|%v|same-id|%s|%s", mode, dv, ref, ks[0]), true)
+					cs := c14Case{mode, defDesc, &rl, "load result", "accepted", nil}
+					if err != nil {
+						cs.Observed = err.Error()
+						r.Violation("wellformed-rule-rejected", fmt.Sprintf("%s %q (the id also names a mechanism of another kind) was rejected: %v", ks[0], ref, err), cs)
+						continue
+					}
+					r.Count("accepted_rules", 1)
+					rid := nextReqID("c14")
+					_, xerr := a.Exec.Execute(newExecCtx("GET", "/"+id, map[string]string{app.HdrReq: rid}))
+					var got []string
+					for _, e := range probes.Take(rid) {
+						if e.Mech == ref {
+							got = append(got, e.Stage+":"+e.Mech)
+						}
+					}
+					want := ks[1] + ":" + ref
+					r.Count("same_id_other_kind_executions", 1)
+					if strings.Join(got, ",") != want || xerr != nil {
+						cs.What, cs.Expected, cs.Observed = "stage in which the referenced mechanism ran", want, fmt.Sprintf("%v err=%v", got, xerr)
+						r.Violation("effective-pipeline-mismatch", fmt.Sprintf("step {%s: %s} executed %v", ks[0], ref, got), cs)
+					}
+				}
+				if ref == "shared" {
+					n++
+					id := fmt.Sprintf("k%d", n)
+					rl := rconfig.Rule{ID: id, Matcher: rconfig.Matcher{Routes: []rconfig.Route{{Path: "/" + id}}}, Backend: &rconfig.Backend{Host: "127.0.0.1:1"},
+						Execute: []config.MechanismConfig{{"authenticator": "anon"}, {"contextualizer": ref}}}
+					err := load(rl)
+					r.Case(fmt.Sprintf("%s|%v|same-id-unknown-kind", mode, dv), true)
+					r.Count("expected_rejections", 1)
+					if err == nil {
+						r.Violation("malformed-rule-accepted", "contextualizer \"shared\" does not exist (only an authorizer and a finalizer of that id), the rule was accepted",
+							c14Case{mode, defDesc, &rl, "load result", "rejected: unknown contextualizer", "accepted"})
+					}
 				}
 			}
 			_ = a.Stop()
